@@ -28,8 +28,12 @@ STUB_CLASSES = ("Rec", "Stub", "Loc", "TD", "Tok", "WStr")
 def _stub_limit(e):
     if isinstance(e, AttributeError):
         import re
-        m = re.match(r"'(\w+)' object has no attribute", str(e))
-        return bool(m and m.group(1) in STUB_CLASSES)
+        m = re.match(r"'(\w+)' object has no attribute '(\w+)'", str(e))
+        if m and m.group(1) in STUB_CLASSES:
+            return True
+        # k-eq-numeric / k-literal-eq build Literal instances without the constructor and fill the private slots by name:
+        # a renamed slot is a limit of the harness
+        return bool(m and m.group(1) == "Literal" and m.group(2).startswith("_"))
     return False
 
 
